@@ -181,6 +181,20 @@ def main():
     os.makedirs(os.path.join(VERIF, 'evidence'), exist_ok=True)
     json.dump(common.strict(ev), open(os.path.join(VERIF, 'evidence', '%s.json' % prop), 'w'), indent=1, default=str)
 
+    if os.environ.get('VERIF_DEBUG'):
+        hist = {}
+        for (c, im, mo, v) in results:
+            for x in v.get('fail', []):
+                hist['FAIL ' + x.split(':')[0]] = hist.get('FAIL ' + x.split(':')[0], 0) + 1
+            for x in v.get('disagree', []):
+                hist['DIS ' + x[:40]] = hist.get('DIS ' + x[:40], 0) + 1
+        for k in sorted(hist):
+            print('  %5d  %s' % (hist[k], k))
+        shown = 0
+        for (c, im, mo, v) in results:
+            if (v.get('fail') or v.get('disagree')) and shown < int(os.environ.get('VERIF_DEBUG')):
+                shown += 1
+                print('   ', v.get('fail'), v.get('disagree'))
     for l in lines:
         print(l)
     print('%s %s: %d cases (%d corpus), %d non-trivial, %d/%d obligations, %d disagreements, %d property failures, %.1fs'
